@@ -180,7 +180,7 @@ def identity_task(case: dict[str, Any]):
 		schedule = {s['at']: s for s in case.get('schedule', [])}
 		mon = Monitor()
 		proc: Any = Procedure()
-		state = {'calls': 0, 'raise_in': [], 'events': []}
+		state = {'calls': 0, 'raise_in': [], 'events': [], 'fired': 0}
 
 		def on_fallback(**event: Any) -> Any:
 			node = event['node']
@@ -191,18 +191,23 @@ def identity_task(case: dict[str, Any]):
 				state['raise_in'][-1] -= 1
 				if state['raise_in'][-1] < 0:
 					state['raise_in'][-1] = None
+					state['fired'] += 1
 					mon.stat('handler-raise fired')
 					raise RuntimeError('injected handler failure')
 			plan = schedule.get(k)
 			if plan is not None and len(mon.frames) <= plan.get('max_depth', 3):
 				sub = flat[plan['root'] % len(flat)]
 				state['raise_in'].append(plan.get('raise_after'))
+				fired_before = state['fired']
 				try:
 					nested = proc.exec(sub)
 					if nested is not sub:
 						mon.diffs.append({'class': 'nested-exec-returned-another-node', 'detail': {'root': nkey(sub), 'got': nkey(nested) if hasattr(nested, 'full_path') else str(nested)}})
 					mon.stat('nested run completed')
-				except Errors.Error:
+				except Errors.Error as e:
+					if state['fired'] == fired_before:
+						# nothing was injected into this nested run: it failed because of what an earlier (failed) run left behind
+						mon.diffs.append({'class': 'nested-run-fails-without-an-injected-fault', 'detail': {'root': nkey(sub), 'error': type(e).__name__, 'msg': str(e)[:160]}})
 					mon.stat('outer handler caught the nested failure and continued')
 				finally:
 					state['raise_in'].pop()
@@ -211,6 +216,20 @@ def identity_task(case: dict[str, Any]):
 		wrap_procedure(proc, mon, {'on_fallback': on_fallback}, 'identity')
 		outcome: dict[str, Any] = {}
 		root = flat[case.get('root', -1) % len(flat)] if case.get('root') is not None else entry
+		if case.get('outer_raise_after') is not None:
+			# a whole run fails through an injected handler failure (results of elder siblings are pending); the same procedure is then used again
+			saved = dict(schedule)
+			schedule.clear()
+			state['raise_in'].append(case['outer_raise_after'])
+			try:
+				proc.exec(root)
+				mon.stat('outer injected failure did not fire (walk shorter than the injection point)')
+			except Errors.Error:
+				mon.stat('outer run failed by injection; procedure reused afterwards')
+			finally:
+				state['raise_in'].pop()
+			schedule.update(saved)
+			state['events'] = []
 		try:
 			res = proc.exec(root)
 			outcome['status'] = 'ok'
@@ -277,6 +296,7 @@ def rebuild_task(case: dict[str, Any]):
 		resolver = getattr(app.resolve(Reflections), '_Reflections__resolver')
 		wrap_procedure(resolver.procedure, mon_r, {key: getattr(resolver, key) for key in ProceduralResolver.__dict__ if key.startswith('on_')}, 'reflections')
 		outcomes = []
+		first_outcome: dict[str, Any] = {}
 		for text in case['texts']:
 			try:
 				main = inter.rebuild_module(text)
@@ -297,6 +317,10 @@ def rebuild_task(case: dict[str, Any]):
 				outcomes.append(['transpile', 'ok', digest(out)])
 			except Errors.Error as e:
 				outcomes.append(['transpile', type(e).__name__])
+			# the same text must be answered the same way later in the session (an erroneous request in between must not disturb later runs)
+			first = first_outcome.setdefault(text, outcomes[-1])
+			if first != outcomes[-1]:
+				mon.diffs.append({'class': 'same-text-answered-differently-later-in-the-session', 'detail': {'text': text[:120], 'first': first[:2], 'later': outcomes[-1][:2]}})
 			mon.stat('module rebuilt under a long-lived procedure')
 		diffs = mon.diffs[:2] + [{**d, 'detail': {**d['detail'], 'procedure': 'py2cpp'}} for d in mon_t.diffs[:2]] + [{**d, 'detail': {**d['detail'], 'procedure': 'reflections'}} for d in mon_r.diffs[:2]]
 		stats = dict(mon.stats)
@@ -394,9 +418,9 @@ class C09(Engine):
 		'with every handler behind a shadow-stack monitor. For every handler call at every nesting level the event must hold, per expandable property, exactly the results of the nodes that property yields '
 		'(single vs list, order), exec must end with exactly the root result, nested runs must not disturb the outer frame, and a second run must equal a fresh procedure. distinct_nontrivial = distinct '
 		'(module, nesting point, depth, failed?) tuples plus distinct monitored (module, variant state) pairs; states = node classes visited and nesting depths')
-	quick_runs = 260
+	quick_runs = 1800
 	thorough_runs = 12000
-	quick_budget_s = 100.0
+	quick_budget_s = 90.0
 	thorough_budget_s = 1500.0
 	components_real = ['Procedure (exec, stacks, __make_event, __emit)', 'Node.procedural / prop_keys / expandable properties of every node class', 'Nodes.expand', 'Py2Cpp handlers and Reflections/ProceduralResolver handlers (monitor mode)', 'the pipeline that loads the corpus modules']
 	components_stubbed = Engine.components_stubbed + ['handlers are re-registered behind a monitor through Procedure.clear_handler/on; exec is framed by a wrapper (monitor only observes)']
@@ -412,6 +436,8 @@ class C09(Engine):
 		cases.append({'mode': 'identity', 'pool': pool, 'module': top, 'schedule': [{'at': 5, 'root': 40, 'max_depth': 3, 'raise_after': 2}]})
 		cases.append({'mode': 'identity', 'pool': pool, 'module': top, 'schedule': [{'at': 3, 'root': 60, 'max_depth': 3}, {'at': 6, 'root': 30, 'max_depth': 3, 'raise_after': 0}, {'at': 9, 'root': 80, 'max_depth': 3}]})
 		cases.append({'mode': 'identity', 'pool': pool, 'module': top, 'root': 50, 'schedule': [{'at': 1, 'root': 20, 'max_depth': 2, 'raise_after': 5}]})
+		cases.append({'mode': 'identity', 'pool': pool, 'module': top, 'outer_raise_after': 30, 'schedule': []})
+		cases.append({'mode': 'identity', 'pool': pool, 'module': top, 'outer_raise_after': 12, 'schedule': [{'at': 4, 'root': 70, 'max_depth': 3, 'raise_after': 9}, {'at': 8, 'root': 70, 'max_depth': 3}, {'at': 20, 'root': 33, 'max_depth': 3}]})
 		for which in (0, 1, 3):
 			p = pools.fixed_pool(which)
 			cases.append({'mode': 'monitor', 'pool': p, 'targets': list(p['modules'])})
@@ -422,6 +448,7 @@ class C09(Engine):
 		cases.append({'mode': 'rebuild', 'pool': pool, 'texts': ['def calc(a: int) -> int:\n\treturn a', 'def calc(b: str) -> str:\n\treturn b', 'def calc(a: int) -> int:\n\treturn a']})
 		cases.append({'mode': 'rebuild', 'pool': pool, 'texts': base[:4] + base[:2]})
 		cases.append({'mode': 'rebuild', 'pool': pool, 'texts': [base[-1], base[-2], base[-1], base[1]]})
+		cases.append({'mode': 'rebuild', 'pool': pool, 'texts': [base[1], 'def f(k: int) -> int:\n\ta = k\n\tb = a\n\treturn undefined_name + b', base[1], 'class A:\n\tn: int\ndef f() -> int:\n\ta = A()\n\tb = a\n\treturn b.missing', base[1], base[0]]})
 		return cases
 
 	def generate(self, rng: random.Random, index: int) -> dict[str, Any]:
@@ -450,6 +477,8 @@ class C09(Engine):
 		case: dict[str, Any] = {'mode': 'identity', 'pool': pool, 'state': state, 'module': module, 'schedule': sched}
 		if rng.random() < 0.3:
 			case['root'] = rng.randrange(10**6)
+		if rng.random() < 0.3:
+			case['outer_raise_after'] = rng.randint(1, 60)
 		return case
 
 	def execute(self, case: dict[str, Any]) -> dict[str, Any]:
